@@ -20,6 +20,7 @@ import (
 
 	"github.com/mycoria/mycoria/frame"
 	"github.com/mycoria/mycoria/m"
+	"github.com/mycoria/mycoria/peering"
 
 	"verifharness/internal/vf"
 )
@@ -50,7 +51,16 @@ type act struct {
 	T    int    `json:"t"`
 	K    int    `json:"k"`
 	Mode string `json:"mode"`
+	Z    int    `json:"z,omitempty"` // position of the frame's size in its pool class (0 = drawn by the walk's PRNG)
 }
+
+const (
+	zHi   = 1 // the largest size of the class
+	zLo   = 2 // the smallest
+	zHi1  = 3 // one below the largest
+	zRand = 4 // somewhere inside
+	zLo1  = 5 // one above the smallest
+)
 
 // shadow is what the driver knows a live frame must look like.
 type shadow struct {
@@ -66,6 +76,10 @@ type shadow struct {
 	psOff  int
 	isNew  bool // built by NewFrameV1/Reply on a pooled buffer: remainder of the buffer must be zero
 	capHnt int  // capacity of the pooled buffer, learnt from the real frame
+	// reader-born frames (reader.go)
+	rdr      bool // born in the real link reader
+	capBirth int  // the pool class the reader's buffer request was served from (0 once the frame has left that buffer)
+	ownTail  int  // bytes right behind the frame that are the frame's own link-layer trailer, not a remnant
 }
 
 // layout is the driver's own serialisation of the V1 frame format.
@@ -168,6 +182,8 @@ type world struct {
 	margin [2]int
 	ops    []act
 	start  int
+	rd     *readerSrc // reader-born frames: the builder is the receiving router's
+	dead   bool       // the set-up stopped delivering: the rest of the walk is not executed
 }
 
 var mts = []frame.MessageType{frame.RouterPing, frame.RouterCtrl, frame.RouterHopPing, frame.NetworkTraffic, frame.SessionCtrl, frame.SessionData, frame.RouterHopPingDeprecated}
@@ -186,6 +202,11 @@ func (w *world) randBytes(n int) []byte {
 // sizesFor picks switch/message/appendix sizes so that the pooled buffer a
 // frame of this type needs lands in concrete tier ti, at a boundary.
 func (w *world) sizesFor(mt frame.MessageType, ti int) (sw, msg, apx int) {
+	return w.sizesForZ(mt, ti, 0)
+}
+
+// sizesForZ: as sizesFor, with the position inside the class given by z (0 = drawn here).
+func (w *world) sizesForZ(mt frame.MessageType, ti int, z int) (sw, msg, apx int) {
 	auth := 64
 	if mt.IsEncrypted() {
 		auth = 16
@@ -199,13 +220,18 @@ func (w *world) sizesFor(mt frame.MessageType, ti int) (sw, msg, apx int) {
 		hi = 20300 // message and appendix are limited to 10000 bytes each
 	}
 	var total int
-	switch w.rng.Intn(4) {
-	case 0:
+	if z == 0 {
+		z = []int{zHi, zLo, zHi1, zRand}[w.rng.Intn(4)]
+	}
+	switch z {
+	case zHi:
 		total = hi
-	case 1:
+	case zLo:
 		total = lo
-	case 2:
+	case zHi1:
 		total = hi - 1
+	case zLo1:
+		total = lo + 1
 	default:
 		total = lo + w.rng.Intn(hi-lo+1)
 	}
@@ -264,6 +290,9 @@ func linkID(l frame.LinkAccessor) int {
 	if s, ok := l.(*linkStub); ok {
 		return s.id
 	}
+	if id, ok := realLinkIDs[l]; ok {
+		return id
+	}
 	return 99
 }
 
@@ -278,35 +307,86 @@ func (w *world) observe() []map[string]any {
 		}
 		data, err := sh.f.FrameDataWithMargins(0, 0)
 		ok := err == nil
+		why := "" // names the first thing that is not as it must be (diagnostics only; the verdict is `ok`)
+		bad := func(format string, a ...any) {
+			ok = false
+			if why == "" {
+				why = fmt.Sprintf(format, a...)
+			}
+		}
+		if err != nil {
+			bad("the frame's bytes are not available: FrameDataWithMargins(0,0): %v", err)
+		}
 		h := fnv.New32a()
 		if ok {
 			want := sh.layout()
 			h.Write(data)
 			if !bytes.Equal(data, want) {
-				ok = false
+				bad("%s", diffText("the frame's bytes", data, want))
 			}
 			if sh.f.SrcIP() != sh.src || sh.f.DstIP() != sh.dst || sh.f.MessageType() != sh.mt ||
 				!bytes.Equal(sh.f.SwitchBlock(), sh.sw) || !bytes.Equal(sh.f.MessageData(), sh.msg) ||
 				!bytes.Equal(sh.f.AppendixData(), sh.apx) || sh.f.TTL() != 32 {
-				ok = false
+				bad("an accessor (addresses, type, switch block, message, appendix, TTL) does not show what was put in; %s", diffText("AppendixData()", sh.f.AppendixData(), sh.apx))
 			}
 			fmt.Fprintf(h, "|%s|%s|%d|%d|%d", sh.f.SrcIP(), sh.f.DstIP(), len(sh.f.MessageData()), len(sh.f.AppendixData()), len(sh.f.SwitchBlock()))
 			if sh.isNew && sh.capHnt > 0 {
 				rest := sh.capHnt - sh.psOff - len(data)
 				if tail, err := sh.f.FrameDataWithMargins(sh.psOff, rest); err == nil {
+					lo, hi := sh.psOff, sh.psOff+len(data)
+					if sh.rdr {
+						lo, hi = 0, hi+sh.ownTail // the link frame around the frame is the frame's own, not a remnant
+					}
 					for j, x := range tail {
-						inFrame := j >= sh.psOff && j < sh.psOff+len(data)
+						inFrame := j >= lo && j < hi
 						if !inFrame && x != 0 {
-							ok = false // remnant of an earlier frame in the recycled buffer
+							bad("byte %d of the recycled buffer, outside the frame, is %#x: a remnant of an earlier frame", j, x)
 							break
 						}
 					}
 				}
 			}
+			if w.rd != nil {
+				// The walk runs on a router's builder whose margins are at least the link layer's: whatever was done to a
+				// frame, the link writer must still get it with the margins it asks for (it seals in place).
+				wm, err := sh.f.FrameDataWithMargins(peering.FrameOffset, peering.FrameOverhead)
+				switch {
+				case err != nil:
+					bad("the link writer cannot have the frame: FrameDataWithMargins(%d,%d): %v", peering.FrameOffset, peering.FrameOverhead, err)
+				case len(wm) != peering.FrameOffset+len(data)+peering.FrameOverhead || !bytes.Equal(wm[peering.FrameOffset:peering.FrameOffset+len(data)], data):
+					bad("FrameDataWithMargins(%d,%d) does not enclose the frame's bytes", peering.FrameOffset, peering.FrameOverhead)
+				}
+			}
 		}
-		out[i-1] = map[string]any{"live": true, "digest": int(h.Sum32() >> 1), "link": linkID(sh.f.RecvLink()), "buf": w.bufID(sh), "ok": ok}
+		buf := w.bufID(sh)
+		if buf < 0 {
+			buf = -i // no buffer identity to be had: not "the same buffer" as another frame's
+		}
+		out[i-1] = map[string]any{"live": true, "digest": int(h.Sum32() >> 1), "link": linkID(sh.f.RecvLink()), "buf": buf, "ok": ok}
+		if why != "" {
+			out[i-1]["why"] = why
+		}
 	}
 	return out
+}
+
+// diffText says where two byte strings part.
+func diffText(what string, got, want []byte) string {
+	if len(got) != len(want) {
+		return fmt.Sprintf("%s: %d bytes, want %d", what, len(got), len(want))
+	}
+	for i := range got {
+		if got[i] != want[i] {
+			zeros := 0
+			for _, x := range got[i:] {
+				if x == 0 {
+					zeros++
+				}
+			}
+			return fmt.Sprintf("%s (%d bytes) differ from what was put in from byte %d on: got %#x want %#x; %d zero bytes from there to the end", what, len(got), i, got[i], want[i], zeros)
+		}
+	}
+	return what + ": equal"
 }
 
 func (w *world) capOf(sh *shadow) int {
@@ -324,6 +404,9 @@ func (w *world) capOf(sh *shadow) int {
 }
 
 func (w *world) exec(a act) {
+	if w.dead {
+		return
+	}
 	ev := map[string]any{"op": a.Name, "s": a.S, "c": a.C, "err": false, "panic": false}
 	w.c.Eval(1)
 	w.ops = append(w.ops, a)
@@ -378,6 +461,8 @@ func (w *world) exec(a act) {
 			}
 			sh.f = f
 			w.slots[a.S] = sh
+		case "read":
+			w.execRead(a, ev)
 		case "setlink":
 			w.slots[a.S].f.SetRecvLink(links[a.K])
 		case "clone":
@@ -405,6 +490,7 @@ func (w *world) exec(a act) {
 			d, _ := sh.f.FrameDataWithMargins(0, 0)
 			copy(sh.nonce[:], d[5:8])
 			sh.isNew = false // a reply keeps its own earlier bytes beyond the new end; not a released frame's
+			sh.capBirth, sh.ownTail = 0, 0
 			sh.capHnt = w.capOf(sh)
 			sh.auth = nil
 			w.stampAuth(sh)
@@ -412,7 +498,16 @@ func (w *world) exec(a act) {
 			sh := w.slots[a.S]
 			d, _ := sh.f.FrameDataWithMargins(0, 0)
 			capacity := w.capOf(sh)
+			if capacity < sh.capBirth {
+				// The frame does not let its buffer be seen up to the end. It still sits in the buffer the link reader
+				// obtained, and the driver knows which pool class served that request: the sizes are chosen by that.
+				// (Only a choice of sizes: every appendix up to the protocol limit must be accepted wherever it lands.)
+				capacity = sh.capBirth
+			}
 			room := capacity - sh.psOff - (len(d) - len(sh.apx))
+			if w.rd != nil {
+				room -= w.margin[1] // the builder keeps its overhead margin free behind the frame
+			}
 			var n int
 			switch a.Mode {
 			case "fits":
@@ -420,7 +515,12 @@ func (w *world) exec(a act) {
 				if n > 10000 {
 					n = 10000
 				}
-				if n > 1 && w.rng.Intn(2) == 0 {
+				if w.rd != nil && n > len(sh.apx) && w.rng.Intn(3) == 0 {
+					// a handler that adds a little to what arrived (1..40 bytes more than the present appendix)
+					if m := len(sh.apx) + 1 + w.rng.Intn(40); m < n {
+						n = m
+					}
+				} else if n > 1 && w.rng.Intn(2) == 0 {
 					n = 1 + w.rng.Intn(n)
 				}
 				if n < 1 {
@@ -448,6 +548,9 @@ func (w *world) exec(a act) {
 			}
 			sh.apx = napx
 			sh.isNew = false // bytes beyond a shortened appendix are the frame's own earlier bytes
+			if n > room {
+				sh.capBirth = 0 // the frame has moved to another buffer
+			}
 		case "mutate":
 			sh := w.slots[a.S]
 			if w.rng.Intn(3) == 0 {
@@ -491,8 +594,17 @@ type batch struct {
 }
 
 func runSeq(c *vf.Ctx, b *batch, ops []act, nslots int, tmap []int, margin [2]int, seed int64) {
+	runSeqOn(c, b, ops, nslots, tmap, margin, seed, nil)
+}
+
+// runSeqOn: with rd the sequence runs on the builder of rd's receiving router (shared by all sequences and by the
+// router's link readers) and "read" operations give birth to frames in those readers.
+func runSeqOn(c *vf.Ctx, b *batch, ops []act, nslots int, tmap []int, margin [2]int, seed int64, rd *readerSrc) {
 	w := &world{c: c, b: frame.NewFrameBuilder(), rng: rand.New(rand.NewSource(seed)), slots: map[int]*shadow{}, nslots: nslots,
-		bufIDs: map[uintptr]int{}, tmap: tmap, margin: margin}
+		bufIDs: map[uintptr]int{}, tmap: tmap, margin: margin, rd: rd}
+	if rd != nil {
+		w.b = rd.b.Builder
+	}
 	w.b.SetFrameMargins(margin[0], margin[1])
 	frames := make([]map[string]any, nslots)
 	for i := range frames {
@@ -503,6 +615,9 @@ func runSeq(c *vf.Ctx, b *batch, ops []act, nslots int, tmap []int, margin [2]in
 		w.exec(a)
 	}
 	// release what is left, so that buffers recycle into the next sequence of this builder
+	if w.dead {
+		return // the set-up broke under this walk: nothing of it is judged
+	}
 	b.hists = append(b.hists, [2]int{len(b.events), len(ops)})
 	b.ops = append(b.ops, ops)
 	b.cfgs = append(b.cfgs, fmt.Sprintf("tiers=%v margins=%v seed=%d", tmap, margin, seed))
@@ -512,6 +627,10 @@ func runSeq(c *vf.Ctx, b *batch, ops []act, nslots int, tmap []int, margin [2]in
 func sig(ops []act) string {
 	s := ""
 	for _, a := range ops {
+		if a.Z != 0 {
+			s += fmt.Sprintf("%s(%d,%d,%d,%s,z%d);", a.Name, a.S, a.C+a.K, a.T, a.Mode, a.Z)
+			continue
+		}
 		s += fmt.Sprintf("%s(%d,%d,%d,%s);", a.Name, a.S, a.C+a.K, a.T, a.Mode)
 	}
 	return s
@@ -553,7 +672,17 @@ func (b *batch) validate(c *vf.Ctx, label string) {
 	if len(ops) > 0 {
 		last = ops[len(ops)-1].Name
 	}
-	c.Violation(vf.Key(what, last), fmt.Sprintf("after %s [%s] the real frames violate %s of FramePool_Trace (line %d of %s): %v", sig(ops), b.cfgs[hi], what, rejectAt, label, b.events[idx]),
+	whys := ""
+	if ev, ok := b.events[idx].(map[string]any); ok {
+		if frs, ok := ev["frames"].([]map[string]any); ok {
+			for i, fr := range frs {
+				if y, ok := fr["why"].(string); ok && y != "" {
+					whys += fmt.Sprintf(" [frame %d: %s]", i+1, y)
+				}
+			}
+		}
+	}
+	c.Violation(vf.Key(what, last), fmt.Sprintf("after %s [%s] the real frames violate %s of FramePool_Trace (line %d of %s):%s %v", sig(ops), b.cfgs[hi], what, rejectAt, label, whys, b.events[idx]),
 		map[string]any{"ops": ops, "config": b.cfgs[hi], "failing_event": b.events[idx]}, nil)
 }
 
@@ -563,7 +692,7 @@ var margins = [][2]int{{12, 16}, {0, 0}, {100, 100}}
 func main() { vf.Main("C17", "model_checking", run) }
 
 func run(c *vf.Ctx) {
-	c.Rule("M: TLC exhaustive over sequences of <= 4 (thorough 5) operations new/parse/setlink/clone/reply/set-appendix/mutate/release on 3 frame structs, 4 buffers, 3 tiers. R: every transition of the <=4-operation graph on 2 structs (quick: seeded sample) and TLC -simulate walks over 5 tiers executed on a real frame.Builder, abstract tiers mapped onto the real pool classes 600/1600/5100/9600/65675 with sizes at min / max / max-1 of the class, margins (12,16)/(0,0)/(100,100), all 7 message types; T: the recorded observations judged by TLC. distinct = distinct (operation sequence, tier map, margins)")
+	c.Rule("M: TLC exhaustive over sequences of <= 4 (thorough 5) operations new/parse/setlink/clone/reply/set-appendix/mutate/release on 3 frame structs, 4 buffers, 3 tiers. R: every transition of the <=4-operation graph on 2 structs (quick: seeded sample) and TLC -simulate walks over 5 tiers executed on a real frame.Builder, abstract tiers mapped onto the real pool classes 600/1600/5100/9600/65675 with sizes at min / max / max-1 of the class, margins (12,16)/(0,0)/(100,100), all 7 message types; R-reader: the same operations on frames BORN IN THE REAL LINK READER - two routers hold a real encrypted link (real set-up, reader and writer workers) to a third, a 'read' sends a frame of a size at a pool-class boundary (min / min+1 / max-1 / max of the size on the wire) and takes the frame object the reader hands to the frame handler; every edge of the <=4-operation reader graph (quick: sample), TLC -simulate walks of NextSimR and a boundary sweep (read, replace the appendix in place / across a class / up to the limit, clone, live on) run on the receiving router's builder; every live frame must also be available with the link writer's margins. T: the recorded observations judged by TLC. distinct = distinct (operation sequence, tier map, margins)")
 	c.Assume("buffer identity is taken from the address of the pooled slice; bytes are compared with the driver's own layout of the inputs", "sync.Pool recycling is exercised by release/allocate cycles on one goroutine but not forced")
 
 	cfg := "FramePool_MC4.cfg"
@@ -663,4 +792,36 @@ func run(c *vf.Ctx) {
 	flush()
 	c.AddModel(sim.Generated, sim.Generated)
 	b2.validate(c, "sim")
+
+	// R (c) frames born in the real link reader
+	readerStage(c)
+}
+
+// walksOf splits the steps TLC's simulator printed (DumpStep) into walks.
+func walksOf(lines []string) [][]act {
+	var walks [][]act
+	var cur []act
+	lastI := 0
+	for _, l := range lines {
+		var st struct {
+			I int `json:"i"`
+			A act `json:"a"`
+		}
+		if json.Unmarshal([]byte(l), &st) != nil {
+			continue
+		}
+		if st.I == lastI {
+			continue // alternative buffer choice of the same step
+		}
+		if st.I == 1 && len(cur) > 0 {
+			walks = append(walks, cur)
+			cur = nil
+		}
+		lastI = st.I
+		cur = append(cur, st.A)
+	}
+	if len(cur) > 0 {
+		walks = append(walks, cur)
+	}
+	return walks
 }
